@@ -349,7 +349,12 @@ Qed.
 Lemma through_cursor_stream canon forked start c stop bundle : num_sorted canon ->
   file_stream c true (file_delivery canon start stop bundle) (fst (through_cursor_run canon forked start c stop bundle)).
 Proof.
-  intros HS. apply shape_stream. unfold through_cursor_run. apply run_shape; [reflexivity | | |intros _ b []].
+  intros HS. apply shape_stream. unfold through_cursor_run, through_resolver_run.
+  destruct (rn (cu_blk c) <? start).
+  { (* the cursor has already passed: a plain file source *)
+    cbn [fst]. apply out_files. apply map_finals; [apply delivery_sorted; exact HS|].
+    intros b Hb. split; [exact Hb | lia]. }
+  apply run_shape; [reflexivity | | |intros _ b []].
   - cbn [rs_init r_seen app]. apply delivery_sorted. exact HS.
   - cbn [rs_init r_seen app]. intros b Hb. split; [exact Hb|]. lia.
 Qed.
